@@ -67,6 +67,54 @@ def _key_class(node) -> str:
     return 'KRaw'
 
 
+def _key_source(node: ast.expr, fn: ast.AST) -> str:
+    """Where the value that is folded into an index key comes from.
+    SGet "k"  : <entity>['k'] / <entity>['k', ''] / <entity>.get('k'...)  (Entity.__getitem__: case-insensitive lookup)
+    SOrig     : a variable assigned from self._keys.get(...) / self._keys[...] in this function (the previous value)
+    SNew      : a variable assigned from conv_kv(...) in this function (the value being stored)
+    SLitKey   : a literal key;   SOther : anything else."""
+    if isinstance(node, ast.Constant):
+        return 'SLitKey'
+    if isinstance(node, ast.BoolOp) and isinstance(node.op, ast.Or) and len(node.values) == 2 \
+            and isinstance(node.values[1], ast.Constant) and node.values[1].value is None:
+        node = node.values[0]
+    if not (isinstance(node, ast.Call) and isinstance(node.func, ast.Attribute) and node.func.attr == 'casefold' and not node.args):
+        return 'SOther'
+    v = node.func.value
+    if isinstance(v, ast.BoolOp) and isinstance(v.op, ast.Or) and len(v.values) == 2 \
+            and isinstance(v.values[1], ast.Constant) and v.values[1].value == '':
+        v = v.values[0]                                   # (orig_val or '')
+    if isinstance(v, ast.Subscript) and isinstance(v.value, ast.Name):
+        k = v.slice
+        if isinstance(k, ast.Tuple) and len(k.elts) == 2 and isinstance(k.elts[1], ast.Constant) and k.elts[1].value == '':
+            k = k.elts[0]
+        if isinstance(k, ast.Constant) and isinstance(k.value, str) and k.value.isidentifier():
+            return f'(SGet "{k.value}" "{v.value.id}")'
+        return 'SOther'
+    if isinstance(v, ast.Name):
+        for n in ast.walk(fn):
+            if isinstance(n, ast.Assign) and any(isinstance(t, ast.Name) and t.id == v.id for t in n.targets):
+                val = n.value
+                if isinstance(val, ast.Call) and isinstance(val.func, ast.Name) and val.func.id == 'conv_kv':
+                    return 'SNew'
+                if any(_is_attr(x, '_keys') for x in ast.walk(val)):
+                    return 'SOrig'
+        return 'SOther'
+    return 'SOther'
+
+
+def _branch(tests: list[str]) -> str:
+    """Which keyvalue the innermost positive enclosing test is about."""
+    for t in reversed(tests):
+        if t.startswith('not ('):
+            continue
+        if "'classname'" in t:
+            return 'classname'
+        if "'targetname'" in t:
+            return 'targetname'
+    return ''
+
+
 def _guard_tests(fn: ast.AST, target: ast.AST) -> list[str]:
     """Source text of the tests of all `if` statements enclosing `target` inside `fn` (body side only)."""
     out: list[str] = []
@@ -91,7 +139,109 @@ def _guard_tests(fn: ast.AST, target: ast.AST) -> list[str]:
     return out
 
 
+READ_BUILTINS = {'len', 'iter', 'list', 'dict', 'sorted', 'set', 'tuple', 'bool', 'repr', 'str', 'frozenset', 'enumerate', 'reversed'}
+LIST_ONLY_MUTATORS = {'append', 'extend', 'insert', 'remove', 'sort', 'reverse'}
+LIST_OR_DICT_MUTATORS = {'pop', 'clear', 'update', 'setdefault', 'popitem', '__setitem__', '__delitem__'}
+FGD_MODULES = {'fgd.py', '_engine_db.py', '_fgd_helpers.py', '_class_resources.py'}   # `.entities` is the FGD's dict there
+
+
+def _callee_name(call: ast.Call) -> str:
+    f = call.func
+    if isinstance(f, ast.Name):
+        return f.id
+    if isinstance(f, ast.Attribute):
+        return f.attr
+    return '?'
+
+
+def _key_dict_escapes(qual: str, fn: ast.AST, rel: str, out: list) -> None:
+    """Every occurrence of `X._keys` that is neither a recognised read nor one of the writer forms handled by the
+    main loop lets the dict escape (alias, argument, return value): record (function, how)."""
+    parent: dict[int, ast.AST] = {}
+    for n in ast.walk(fn):
+        for ch in ast.iter_child_nodes(n):
+            parent[id(ch)] = n
+    for n in ast.walk(fn):
+        if not _is_attr(n, '_keys'):
+            continue
+        p = parent.get(id(n))
+        if isinstance(p, ast.Subscript) and p.value is n:
+            continue                                    # self._keys[k]  load / store / del
+        if isinstance(p, ast.Attribute) and p.value is n:
+            pp = parent.get(id(p))
+            if isinstance(pp, ast.Call) and pp.func is p:
+                continue                                # self._keys.meth(...)  classified by the main loop
+            out.append((qual, f'bound-method:{p.attr}', rel, n.lineno))
+            continue
+        if isinstance(p, (ast.Assign, ast.AnnAssign, ast.AugAssign)) and (n in getattr(p, 'targets', []) or getattr(p, 'target', None) is n):
+            continue                                    # self._keys = ...  recorded as 'assign'
+        if isinstance(p, (ast.For, ast.comprehension)) and p.iter is n:
+            continue                                    # for k in self._keys
+        if isinstance(p, ast.Compare) and n in p.comparators and all(isinstance(o, (ast.In, ast.NotIn)) for o in p.ops):
+            continue                                    # k in self._keys
+        if isinstance(p, ast.Call) and n in p.args and isinstance(p.func, ast.Name) and p.func.id in READ_BUILTINS:
+            continue                                    # len(self._keys) ...
+        if isinstance(p, ast.Return):
+            out.append((qual, 'return', rel, n.lineno))
+        elif isinstance(p, ast.keyword):
+            pp = parent.get(id(p))
+            out.append((qual, f'arg:{_callee_name(pp) if isinstance(pp, ast.Call) else "?"}', rel, n.lineno))
+        elif isinstance(p, ast.Call) and n in p.args:
+            out.append((qual, f'arg:{_callee_name(p)}', rel, n.lineno))
+        elif isinstance(p, (ast.Assign, ast.AnnAssign)):
+            out.append((qual, 'alias', rel, n.lineno))
+        else:
+            out.append((qual, f'other:{type(p).__name__}', rel, n.lineno))
+
+
+def _entity_list_writers(qual: str, fn: ast.AST, rel: str, out_list: list, out_spawn: list) -> None:
+    """Mutations of a `.entities` list and assignments to `.spawn`."""
+    for n in ast.walk(fn):
+        if isinstance(n, ast.Call) and isinstance(n.func, ast.Attribute) and _is_attr(n.func.value, 'entities'):
+            m = n.func.attr
+            if m in LIST_ONLY_MUTATORS or (m in LIST_OR_DICT_MUTATORS and rel not in FGD_MODULES):
+                out_list.append((qual, m, rel, n.lineno))
+        if isinstance(n, (ast.Assign, ast.AugAssign, ast.AnnAssign, ast.Delete)):
+            tgts = n.targets if isinstance(n, (ast.Assign, ast.Delete)) else [n.target]
+            for t in tgts:
+                for sub in ast.walk(t):
+                    if rel not in FGD_MODULES:
+                        if isinstance(sub, ast.Subscript) and _is_attr(sub.value, 'entities'):
+                            out_list.append((qual, 'del' if isinstance(n, ast.Delete) else 'store', rel, n.lineno))
+                        elif _is_attr(sub, 'entities') and sub is t:
+                            out_list.append((qual, 'augassign' if isinstance(n, ast.AugAssign) else 'assign', rel, n.lineno))
+                    if rel == 'vmf.py' and _is_attr(sub, 'spawn') and sub is t:
+                        out_spawn.append((qual, 'assign', rel, n.lineno))
+
+
+def _remove_ent_guards(fn: ast.FunctionDef) -> tuple[bool, bool]:
+    """VMF.remove_ent: is every index removal preceded (at the top level of the function) by an early `return` taken
+    when the item is the worldspawn / when the item is still in the entity list (it was added more than once)?"""
+    if len(fn.args.args) != 2:
+        raise TranslateError(f'VMF.remove_ent: unexpected parameters')
+    item = fn.args.args[1].arg
+    spawn_guard = listed_guard = False
+    for st in fn.body:
+        if any(isinstance(n, ast.Call) and isinstance(n.func, ast.Name) and n.func.id == '_remove_copyset' for n in ast.walk(st)):
+            break
+        if isinstance(st, ast.If) and len(st.body) == 1 and isinstance(st.body[0], ast.Return) and not st.orelse:
+            tests = st.test.values if isinstance(st.test, ast.BoolOp) and isinstance(st.test.op, ast.Or) else [st.test]
+            for t in tests:
+                if isinstance(t, ast.Compare) and len(t.ops) == 1 and isinstance(t.left, ast.Name) and t.left.id == item:
+                    rhs = t.comparators[0]
+                    if isinstance(t.ops[0], ast.Is) and _is_attr(rhs, 'spawn'):
+                        spawn_guard = True
+                    if isinstance(t.ops[0], ast.In) and _is_attr(rhs, 'entities'):
+                        listed_guard = True
+    return spawn_guard, listed_guard
+
+
 def translate() -> tuple[str, dict]:
+    remove_guards: tuple[bool, bool] | None = None
+    key_escapes: list[tuple[str, str, str, int]] = []
+    key_sources: list[tuple] = []      # func, index, is_add, source, entity expression, branch
+    ent_list_writers: list[tuple[str, str, str, int]] = []
+    spawn_writers: list[tuple[str, str, str, int]] = []
     key_writers: list[tuple[str, str, str, int]] = []     # func, how, file, line
     index_sites: list[tuple[str, str, str, str, bool, str, int]] = []
     digests: dict[str, str] = {}
@@ -101,9 +251,17 @@ def translate() -> tuple[str, dict]:
             tree = ast.parse(path.read_text(encoding='utf8'))
         except SyntaxError as e:
             raise TranslateError(f'{rel}: {e}') from None
+        # reflective access (getattr(x, '_keys'), vars(x)['by_class'], ...) would bypass the census: fail closed
+        for n in ast.walk(tree):
+            if isinstance(n, ast.Constant) and n.value in ('_keys', 'by_class', 'by_target'):
+                raise TranslateError(f'{rel}:{n.lineno}: the name {n.value!r} appears as a string (reflective access?)')
         for qual, cls, fn in _functions(tree):
             if rel == 'vmf.py' and qual in ('VMF.search', 'Entity.make_unique', 'CopySet.__iter__', '_remove_copyset'):
                 digests[qual] = ast_digest(fn)
+            if rel == 'vmf.py' and qual == 'VMF.remove_ent':
+                remove_guards = _remove_ent_guards(fn)
+            _key_dict_escapes(qual, fn, rel, key_escapes)
+            _entity_list_writers(qual, fn, rel, ent_list_writers, spawn_writers)
             for node in ast.walk(fn):
                 # ---- Entity._keys writers
                 if isinstance(node, (ast.Assign, ast.AugAssign, ast.AnnAssign, ast.Delete)):
@@ -137,6 +295,11 @@ def translate() -> tuple[str, dict]:
                                 tests = ' ; '.join(_guard_tests(fn, node))
                                 guarded = ('self.map.entities' in tests) or ('self.map.spawn' in tests)
                             index_sites.append((qual, ix, 'add', _key_class(recv.slice), guarded, rel, node.lineno))
+                            ent = '?'
+                            if len(node.args) == 1 and isinstance(node.args[0], (ast.Name, ast.Attribute)):
+                                ent = ast.unparse(node.args[0])
+                            key_sources.append((qual, ix, True, _key_source(recv.slice, fn), ent,
+                                                _branch(_guard_tests(fn, node)) if cls == 'Entity' else ''))
                         elif meth in ('discard', 'remove', 'clear', 'update', 'pop', 'difference_update',
                                       'intersection_update', 'symmetric_difference_update'):
                             raise TranslateError(f'{rel}:{node.lineno}: index set mutated with .{meth} in {qual}')
@@ -146,6 +309,10 @@ def translate() -> tuple[str, dict]:
                     if len(node.args) != 3 or _index_of(node.args[0]) is None:
                         raise TranslateError(f'{rel}:{node.lineno}: unrecognised _remove_copyset call in {qual}')
                     index_sites.append((qual, _index_of(node.args[0]), 'remove', _key_class(node.args[1]), True, rel, node.lineno))
+                    ent = node.args[2].id if isinstance(node.args[2], ast.Name) else (
+                        ast.unparse(node.args[2]) if isinstance(node.args[2], ast.Attribute) else '?')
+                    key_sources.append((qual, _index_of(node.args[0]), False, _key_source(node.args[1], fn), ent,
+                                        _branch(_guard_tests(fn, node)) if cls == 'Entity' else ''))
     if not key_writers or not index_sites:
         raise TranslateError('no Entity._keys writer / index update site found: vmf.py not recognised')
     for need in ('VMF.search', 'Entity.make_unique', '_remove_copyset'):
@@ -160,6 +327,26 @@ def translate() -> tuple[str, dict]:
         'Definition key_writers : list (string * string) := [',
         ';\n'.join(f'  ("{f}", "{h}")' for f, h in writers),
         '].',
+        '(* every place where an Entity._keys dict escapes (returned, passed on, aliased): function, how *)',
+        'Definition key_escapes : list (string * string) := [',
+        ';\n'.join(f'  ("{f}", "{h}")' for f, h in sorted({(f, h) for f, h, _, _ in key_escapes})),
+        '].',
+        '(* every function mutating a VMF.entities list / assigning VMF.spawn *)',
+        'Definition entity_list_writers : list (string * string) := [',
+        ';\n'.join(f'  ("{f}", "{h}")' for f, h in sorted({(f, h) for f, h, _, _ in ent_list_writers})),
+        '].',
+        '(* VMF.remove_ent returns before touching the indexes when the item is the worldspawn / is still listed *)',
+        f'Definition remove_ent_skips_worldspawn : bool := {"true" if remove_guards[0] else "false"}.',
+        f'Definition remove_ent_skips_still_listed : bool := {"true" if remove_guards[1] else "false"}.',
+        'Definition spawn_writers : list (string * string) := [',
+        ';\n'.join(f'  ("{f}", "{h}")' for f, h in sorted({(f, h) for f, h, _, _ in spawn_writers})),
+        '].',
+        '(* where the folded value of every index update comes from: function, index, is_add, source, the entity',
+        '   added / removed, the keyvalue the enclosing branch of an Entity method is about *)',
+        'Inductive keysrc := SGet (key ent : string) | SOrig | SNew | SLitKey | SOther.',
+        'Definition index_key_sources : list (string * string * bool * keysrc * string * string) := [',
+        ';\n'.join(f'  ("{f}", "{ix}", {"true" if a else "false"}, {src}, "{ent}", "{br}")' for f, ix, a, src, ent, br in key_sources),
+        '].',
         '(* every update of by_class / by_target: function, index, is_add, class of the key expression, guarded *)',
         'Definition index_sites : list (string * string * bool * keyclass * bool) := [',
         ';\n'.join(f'  ("{f}", "{ix}", {"true" if k == "add" else "false"}, {kc}, {"true" if g else "false"})'
@@ -167,8 +354,13 @@ def translate() -> tuple[str, dict]:
         '].',
         '',
     ]
+    if remove_guards is None:
+        raise TranslateError('VMF.remove_ent not found in vmf.py')
+    if not ent_list_writers or not spawn_writers:
+        raise TranslateError('no VMF.entities writer / VMF.spawn assignment found: vmf.py not recognised')
     side = {'key_writers': [list(k) for k in key_writers], 'index_sites': [list(s) for s in index_sites],
-            'digests': digests}
+            'key_escapes': [list(k) for k in key_escapes], 'key_sources': [list(k) for k in key_sources], 'entity_list_writers': [list(k) for k in ent_list_writers],
+            'spawn_writers': [list(k) for k in spawn_writers], 'digests': digests}
     return '\n'.join(lines), side
 
 
